@@ -2,6 +2,7 @@ package rules
 
 import (
 	"go/ast"
+	"go/token"
 	"go/types"
 	"strings"
 
@@ -18,6 +19,8 @@ func init() {
 			"the named-type dispatch covers the three input kinds and the five built-in scalars and the error renderer covers the same sets; list traversal descends into every element unconditionally; the validator's error slot is re-initialised on every Validate call before the walk; the engine plans only after variable validation succeeded (or there was no JSON object to validate). " +
 			"It does not decide accept ⇔ coercible for all (type, value) pairs.",
 		Mutants: []Mutant{
+			{Name: "provided values of input fields with a default are never checked (seeded change C06-11)", File: varsValGo, Rule: "C06-R6", Key: "traverseFieldDefinitionType/exit-checked-or-nothing-to-check",
+				Old: "\t\tif jsonValue == nil || jsonValue.Type() == astjson.TypeNull {\n\n\t\t\tif bytes.Equal(v.definition.TypeNameBytes(v.definition.Types[typeRef].OfType), []byte(\"Upload\")) {", New: "\t\tif v.definition.InputValueDefinitionHasDefaultValue(inputFieldRef) {\n\t\t\treturn\n\t\t}\n\t\tif jsonValue == nil || jsonValue.Type() == astjson.TypeNull {\n\n\t\t\tif bytes.Equal(v.definition.TypeNameBytes(v.definition.Types[typeRef].OfType), []byte(\"Upload\")) {"},
 			{Name: "new message interpolates the raw value", File: varsValGo, Rule: "C06-R1", Key: "renderVariableInvalidObjectTypeError",
 				Old: "v.err = v.newInvalidVariableError(fmt.Sprintf(`%s; Expected type \"%s\" to be an object.`, v.invalidValueMessage(string(v.currentVariableName), variableContent), string(typeName)))",
 				New: "v.err = v.newInvalidVariableError(fmt.Sprintf(`%s; Expected type \"%s\" to be an object, got %s.`, v.invalidValueMessage(string(v.currentVariableName), variableContent), string(typeName), variableContent))"},
@@ -313,6 +316,135 @@ func runC06(r *fw.Run) {
 			return true
 		})
 		r.Expect("C06-R5", "array loops in "+name, n, 1)
+	}
+
+	// ---- R6 a provided value is never skipped --------------------------------------------------------------
+	r.Rule("C06-R6", "the type-wrapper traversals (traverseOperationType, traverseFieldDefinitionType) leave without recording an error and without descending into the value only on an edge where the value is absent or null, or the list is empty")
+	errWriters := map[*types.Func]bool{}
+	for _, fi := range p.Funcs("varsvalidation") {
+		fw.WalkAll(fi.Decl.Body, func(nd ast.Node) bool {
+			for _, t := range fw.WriteTargets(info, nd) {
+				if fw.IsFieldSel(info, t, "varsvalidation", "variablesVisitor", "err") {
+					errWriters[fi.Obj] = true
+				}
+			}
+			return true
+		})
+	}
+	for _, name := range []string{"variablesVisitor.traverseOperationType", "variablesVisitor.traverseFieldDefinitionType"} {
+		fi := p.Func("varsvalidation", name)
+		if fi == nil {
+			r.Error("C06-R6: %s not found", name)
+			continue
+		}
+		// the JSON value parameter
+		var jv *types.Var
+		sig := fi.Obj.Type().(*types.Signature)
+		for i := 0; i < sig.Params().Len(); i++ {
+			if strings.HasSuffix(sig.Params().At(i).Type().String(), "astjson.Value") {
+				jv = sig.Params().At(i)
+			}
+		}
+		if jv == nil {
+			r.Error("C06-R6: %s has no JSON value parameter", name)
+			continue
+		}
+		isJV := func(e ast.Expr) bool {
+			id, ok := ast.Unparen(e).(*ast.Ident)
+			return ok && info.Uses[id] == jv
+		}
+		nExit := 0
+		in := fw.NewInterp(fi)
+		in.H = fw.Hooks{
+			Cond: func(e ast.Expr, branch bool, st *fw.State) {
+				be, ok := ast.Unparen(e).(*ast.BinaryExpr)
+				if !ok {
+					return
+				}
+				eq := be.Op == token.EQL && branch || be.Op == token.NEQ && !branch
+				if !eq {
+					return
+				}
+				// jsonValue == nil
+				if x, _, isNil := fw.NilCheck(info, be); isNil && isJV(x) {
+					st.Set("ok")
+				}
+				for _, pair := range [][2]ast.Expr{{be.X, be.Y}, {be.Y, be.X}} {
+					c, isCall := ast.Unparen(pair[0]).(*ast.CallExpr)
+					if !isCall {
+						continue
+					}
+					// jsonValue.Type() == astjson.TypeNull
+					if sel, isSel := ast.Unparen(c.Fun).(*ast.SelectorExpr); isSel && sel.Sel.Name == "Type" && isJV(sel.X) {
+						if co := fw.ConstObj(info, pair[1]); co != nil && co.Name() == "TypeNull" {
+							st.Set("ok")
+						}
+					}
+					// len(jsonValue.GetArray()) == 0
+					if fw.Builtin(info, c) == "len" && len(c.Args) == 1 {
+						if cv, isC := fw.ConstVal(info, pair[1]); isC && cv == "0" {
+							if ic, isIC := ast.Unparen(c.Args[0]).(*ast.CallExpr); isIC {
+								if sel, isSel := ast.Unparen(ic.Fun).(*ast.SelectorExpr); isSel && sel.Sel.Name == "GetArray" && isJV(sel.X) {
+									st.Set("ok")
+								}
+							}
+						}
+					}
+				}
+			},
+			Node: func(nd ast.Node, st *fw.State) {
+				switch x := nd.(type) {
+				case *ast.CallExpr:
+					fn := fw.Callee(info, x)
+					if fn == nil {
+						return
+					}
+					if errWriters[fn] { // an error renderer
+						st.Set("ok")
+					}
+					// descends: a traversal of this package that receives the value (or an element of it)
+					if fn.Pkg() == fi.Obj.Pkg() && strings.HasPrefix(fn.Name(), "traverse") {
+						st.Set("ok")
+					}
+				case *fw.RangeEval:
+					// the element loop (its body is C06-R5's business); zero elements = nothing to check
+					found := false
+					fw.WalkAll(x.Stmt.X, func(m ast.Node) bool {
+						if c, ok := m.(*ast.CallExpr); ok {
+							if f := fw.Callee(info, c); f != nil && f.Name() == "GetArray" {
+								found = true
+							}
+						}
+						if id, ok := m.(*ast.Ident); ok && varDefinedByCallNamed(fi, info.Uses[id], "GetArray") {
+							found = true
+						}
+						return true
+					})
+					if found {
+						st.Set("ok")
+					}
+				}
+				for _, t := range fw.WriteTargets(info, nd) {
+					if fw.IsFieldSel(info, t, "varsvalidation", "variablesVisitor", "err") {
+						st.Set("ok")
+					}
+				}
+			},
+			Exit: func(ret *ast.ReturnStmt, lit *ast.FuncLit, st *fw.State) {
+				if lit != nil {
+					return
+				}
+				nExit++
+				pos := fi.Decl.End()
+				if ret != nil {
+					pos = ret.Pos()
+				}
+				r.Check(st.Must("ok"), "C06-R6", name+"/exit-checked-or-nothing-to-check#"+itoa(nExit), p.Pos(pos), "exit of "+name+" follows an error, a descent into the value, or an absent/null/empty value",
+					"this exit is reached with a provided, non-null value that was neither rejected nor handed to the next traversal step: whatever the client sent at this position is accepted unchecked (e.g. a field with a default value whose provided value is never type-checked)")
+			},
+		}
+		in.Run(nil)
+		r.Expect("C06-R6", "exits of "+name, nExit, 4)
 	}
 }
 
